@@ -285,6 +285,12 @@ def raw_cases(tier):
     for a in strs[:6]:
         for b in ints:
             cases.append(shape + ('str', (('n', 0, 'P', a), ('n', 0, 'I', b), ('e', 1, 'K', b))))
+    # ONE property name carrying a string on one element and an int on another (two nodes; a node and a link; two links)
+    for a in [strs[0], strs[2], V.index('0'), V.index('true')]:
+        for b in ints[:3]:
+            cases.append(shape + ('int', (('n', 0, 'M', a), ('n', 1, 'M', b))))
+            cases.append(shape + ('int', (('n', 0, 'M', b), ('e', 0, 'M', a))))
+            cases.append(shape + ('id', (('e', 0, 'M', a), ('e', 1, 'M', b))))
     return cases
 
 
